@@ -13,5 +13,5 @@ def run(run, tier):
     l2.describe(run, tier)
     run.bounds += [f"(writer, reader) pairs: {len(l8.pairs())} generated from {len(l8.WRITERS)} writer schemas by one evolution step "
                    f"at every position (this run: {len(hs)}); datum symbolic under the writer schema (collections <= 1 quick / 2 thorough)"]
-    run.outside += ["compositions of evolution steps other than rename-with-alias combined with a field or symbol change", "bytes/fixed-typed reader defaults (JSON string form)",
+    run.outside += ["compositions of evolution steps other than rename-with-alias combined with a field or symbol change",
                     "container reader (the same read_data code; covered by C04 with reader == writer)"]
